@@ -7,11 +7,85 @@ open AslModel.Csv
 
 abbrev Bytes := List UInt8
 
+
+/-- decimal value of a digit string -/
+def digitsVal (ds : Bytes) (y : Nat) : Nat := ds.foldl (fun y c => 10 * y + (c.toNat - 48)) y
+
+theorem le_digitsVal (ds : Bytes) (y : Nat) : y ≤ digitsVal ds y := by
+  induction ds generalizing y with
+  | nil => exact Nat.le_refl _
+  | cons c t ih =>
+    have := ih (10 * y + (c.toNat - 48))
+    simp only [digitsVal, List.foldl_cons] at this ⊢
+    omega
+
+theorem atoiDigits_eq (ds : Bytes) (y : Nat) (hd : ∀ c ∈ ds, isDigit c = true) (hb : digitsVal ds y < 4294967296) :
+    atoiDigits ds y = digitsVal ds y := by
+  induction ds generalizing y with
+  | nil => rfl
+  | cons c t ih =>
+    have hc := hd c (by simp)
+    have hle := le_digitsVal t (10 * y + (c.toNat - 48))
+    have hb' : digitsVal t (10 * y + (c.toNat - 48)) < 4294967296 := hb
+    have hm : (10 * y + (c.toNat - 48)) % 4294967296 = 10 * y + (c.toNat - 48) := Nat.mod_eq_of_lt (by omega)
+    simp only [atoiDigits, hc, if_true, hm]
+    exact ih _ (fun x hx => hd x (by simp [hx])) hb'
+
+/-- the integer a decimal text `[-]digits` spells -/
+def intValue : Bytes → Int
+  | 45 :: ds => -(digitsVal ds 0 : Int)
+  | ds => (digitsVal ds 0 : Int)
+
+/-- `[-]digits` with at least one digit, magnitude below 2^31 -/
+def IntText (l : Bytes) : Prop :=
+  ∃ (neg : Bool) (ds : Bytes), l = (if neg then [45] else []) ++ ds ∧ ds ≠ [] ∧ (∀ c ∈ ds, isDigit c = true) ∧
+    digitsVal ds 0 < 2147483648
+
+theorem atoi32_intText (l : Bytes) (h : IntText l) : atoi32 l = intValue l := by
+  obtain ⟨neg, ds, rfl, hne, hd, hb⟩ := h
+  have hA := atoiDigits_eq ds 0 hd (by omega)
+  cases neg with
+  | true =>
+    simp only [if_true, List.singleton_append, atoi32, intValue, hA, if_true]
+    split <;> omega
+  | false =>
+    cases ds with
+    | nil => exact absurd rfl hne
+    | cons c t =>
+      have hc := hd c (by simp)
+      have h45 : c ≠ 45 := by intro e; subst e; simp [isDigit] at hc
+      have h43 : c ≠ 43 := by intro e; subst e; simp [isDigit] at hc
+      simp only [Bool.false_eq_true, if_false, List.nil_append]
+      unfold atoi32 intValue
+      split
+      · rename_i heq; simp at heq; exact absurd heq.1 h45
+      · rename_i heq; simp at heq; exact absurd heq.1 h43
+      · rename_i t' _ _ 
+        simp only [Bool.false_eq_true, if_false, hA]
+        split <;> omega
+theorem intText_no_point (l : Bytes) (h : IntText l) : 46 ∉ l := by
+  obtain ⟨neg, ds, rfl, _, hd, _⟩ := h
+  intro hm
+  rcases List.mem_append.mp hm with h1 | h1
+  · cases neg <;> simp at h1
+  · have := hd 46 h1
+    simp [isDigit] at this
+
+theorem loc_id_of_no_point (d : UInt8) (l : Bytes) (h : 46 ∉ l) :
+    l.map (fun c => if c = 46 then d else c) = l := by
+  induction l with
+  | nil => rfl
+  | cons a t ih =>
+    simp only [List.mem_cons, not_or] at h
+    have : a ≠ 46 := fun e => h.1 e.symm
+    simp [this, ih h.2]
+
 /-- a cell that suits a column of type `t` when the reader's decimal symbol is `rdec`: strings in `s` columns
-    (**any** string), number texts that do not already contain `rdec` in `n` columns, anything in a dropped column -/
+    (**any** string), number texts that do not already contain `rdec` in `n` columns, decimal integers below 2^31 in magnitude in `i` columns, anything in a dropped column -/
 def Fits (rdec : UInt8) : ColType → Cell → Prop
   | .str, .str _ => True
   | .num, .num l => rdec ∉ l ∨ rdec = 46
+  | .int, .num l => IntText l
   | .skip, _ => True
   | _, _ => False
 
@@ -19,6 +93,7 @@ def Fits (rdec : UInt8) : ColType → Cell → Prop
 def typedSpec : ColType → Cell → Option RCell
   | .str, .str s => some (.str s)
   | .num, .num l => some (.num (atofDec l))
+  | .int, .num l => some (.int (intValue l))
   | _, _ => none
 
 theorem map_id_of_not_mem (d : UInt8) (l : Bytes) (h : d ∉ l) :
@@ -46,6 +121,12 @@ theorem unloc_loc (d : UInt8) (l : Bytes) (h : d ∉ l) :
 theorem typedCell_localize (wdec rdec : UInt8) (hd : wdec = 46 ∨ wdec = rdec) (ty : ColType) (c : Cell)
     (hf : Fits rdec ty c) : typedCell rdec ty (cellText (localize wdec c)) = typedSpec ty c := by
   cases ty <;> cases c <;> simp only [Fits] at hf <;> try rfl
+  case int.num l =>
+    have e : (if wdec != 46 then l.map (fun c => if c = 46 then wdec else c) else l) = l := by
+      split
+      · exact loc_id_of_no_point wdec l (intText_no_point l hf)
+      · rfl
+    simp only [localize, cellText, typedCell, typedSpec, e, atoi32_intText l hf]
   case num.num l =>
     simp only [localize, cellText, typedCell, typedSpec]
     congr 3
